@@ -842,6 +842,24 @@ def stepViews (cx : Ctx) (w : World) (ws : List String) : Option StepOut :=
     else none
   | _ => none
 
+/-- internal iteration to exhaustion (`fold`, `rfold`, `rev().for_each`): the positions of the two windows are visited in
+    the given order, every visit is one call of the test callback (which writes, for a mutable iterator) -/
+def drainIter (cx : Ctx) (r : Nat) (writes : Bool) (tag : String) : List (Nat × Nat) → Nat → World → List String → List String → Ev → Ev → List Nat →
+    World × List String × List String × Ev × Ev × List Nat
+  | [], _, w, outI, outS, evI, evS, made => (w, outI, outS, evI, evS, made)
+  | (pI, pS) :: ps, k, w, outI, outS, evI, evS, made =>
+    let sh := cx.shape
+    let nl := cx.kinds.length
+    let c0 := w.regs.getD r sh.empty
+    let r0 := w.rows.getD r []
+    let rowStr (cols : List (List Nat)) (p : Nat) : String := fmtNats (cols.map (fun l => l.getD p 0))
+    let sI := tag ++ rowStr (cx.maskCols c0.leaves) pI
+    let sS := tag ++ rowStr (cx.maskCols (rowsCols nl r0)) pS
+    if writes then
+      let (w', eI, eS, md) := writeBoth cx w r pI (k % nl) ((16 + k) % 32)
+      drainIter cx r writes tag ps (k + 1) w' (outI ++ [sI]) (outS ++ [sS]) (evI ++ eI) (evS ++ eS) (made ++ md)
+    else drainIter cx r writes tag ps (k + 1) w (outI ++ [sI]) (outS ++ [sS]) evI evS made
+
 /-- drive an iterator on both sides step by step (`F` next, `B` next_back, `L` len, `H` size_hint);
     an element yielded by a mutable iterator is written by the test callback -/
 def iterDrive (cx : Ctx) (r : Nat) (writes : Bool) : List Char → View.Win → View.Win → Nat → World → List String → List String → Ev → Ev → List Nat →
@@ -855,7 +873,13 @@ def iterDrive (cx : Ctx) (r : Nat) (writes : Bool) : List Char → View.Win → 
     let rowStr (cols : List (List Nat)) (p : Nat) : String := fmtNats (cols.map (fun l => l.getD p 0))
     let c0 := w.regs.getD r sh.empty
     let r0 := w.rows.getD r []
-    if c == 'L' then iterDrive cx r writes cs vI vS k w (outI ++ [s!"L{vI.l}"]) (outS ++ [s!"L{vS.l}"]) evI evS made
+    if c == 'X' || c == 'Y' || c == 'V' then
+      -- `X` fold (front to back); `Y` rfold, `V` rev().for_each (back to front); the iterator is consumed, later steps are ignored
+      let fwd := c == 'X'
+      let posI := if fwd then List.range' vI.s vI.l else (List.range' vI.s vI.l).reverse
+      let posS := if fwd then List.range' vS.s vS.l else (List.range' vS.s vS.l).reverse
+      drainIter cx r writes (if fwd then "F" else "B") (posI.zip posS) k w outI outS evI evS made
+    else if c == 'L' then iterDrive cx r writes cs vI vS k w (outI ++ [s!"L{vI.l}"]) (outS ++ [s!"L{vS.l}"]) evI evS made
     else if c == 'H' then iterDrive cx r writes cs vI vS k w (outI ++ [s!"H{vI.l}:{vI.l}"]) (outS ++ [s!"H{vS.l}:{vS.l}"]) evI evS made
     else if c == 'C' then
       iterDrive cx r writes cs ⟨vI.s + vI.l, 0⟩ ⟨vS.s + vS.l, 0⟩ k w (outI ++ [s!"C{vI.l}"]) (outS ++ [s!"C{vS.l}"]) evI evS made
